@@ -26,7 +26,7 @@ type poolVar struct {
 }
 
 var locals = []poolVar{
-	{"var.i1", "INTEGER", "7"}, {"var.i2", "INTEGER", "-3"},
+	{"var.i1", "INTEGER", "7"}, {"var.i2", "INTEGER", "-130"}, // |i2| > 63: a shift / rotate count that has to be reduced
 	{"var.f1", "FLOAT", "1.5"}, {"var.f2", "FLOAT", "-2.25"},
 	{"var.s1", "STRING", `"abc"`}, {"var.s2", "STRING", `"x1"`},
 	{"var.b1", "BOOL", "true"}, {"var.b2", "BOOL", "false"},
